@@ -28,6 +28,14 @@ if focus is not None:
     text += '''
 FOCUS FOR THIS ASSIGNMENT: make your change in or around this mechanism (other people are covering the others): %s [%s]
 ''' % (m['name'], m['where'])
+taken_file = os.environ.get('MUT_TAKEN')
+if taken_file and os.path.exists(taken_file):
+    items = json.load(open(taken_file)).get(pid, [])
+    if items:
+        text += '''
+ALREADY TAKEN by other people for this property (summaries of their changes) - do something DIFFERENT, in a different function or a different mechanism, not a variation of one of these:
+%s
+''' % '\n'.join(items)
 tpl = open(os.path.join(here, 'mutprompt.tpl')).read()
 os.makedirs(out, exist_ok=True)
 open(os.path.join(out, 'prompt.txt'), 'w').write(tpl.replace('__WT__', wt).replace('__OUT__', out).replace('__PROPERTY__', text))
